@@ -196,6 +196,9 @@ func randAPI(rng *rand.Rand, plat string, size int, tag string) *Scenario {
 				if sizes[s] < m {
 					m = sizes[s]
 				}
+				if m < 8 {
+					continue // buffers of a few bytes: nothing for the copy kernel to do
+				}
 				n := 4 * (1 + rng.Intn(m/4))
 				if rng.Intn(2) == 0 {
 					n = 4 * (1 + rng.Intn(48))
